@@ -124,7 +124,7 @@ def _structure_job(args):
                 measure(rec, "fill-in-pattern", {"which": "full first column, tridiagonal rest", "A": Bd.tolist()}, Bd)
             # a sub-column whose entries are so small that their SQUARES underflow (graded matrices, outputs of
             # earlier reductions): the reflector must still be unitary
-            for e_ in (-530, -520):
+            for e_ in (-530, -520, -1072):
                 Dn = G.copy()
                 Dn[1:, 0] *= 2.0 ** e_
                 measure(rec, "underflow-subcolumn", {"A": "G with column 0 below the diagonal scaled by 2^%d" % e_, "n": n}, Dn)
